@@ -170,27 +170,46 @@ def run(ck):
         if val != automod:
             detail = "flag set is %s, EXCEPT_CODE_AUTOMOD is %s" % (val, automod)
             continue
-        # dominating overlap tests: (code.start < write.stop) and (write.start < code.stop)
-        need = {("ad_start", "stop"): False, ("start", "ad_stop"): False}
+        # dominating overlap tests, stated on linear forms with the function's single-assignment locals expanded (a hoisted
+        # `w_last = stop - 1` is the same test when it is compared with <=):
+        #      code.ad_start < write.stop      and      write.start < code.ad_stop          (half-open ranges)
+        ldefs = cast.local_defs(f)
+        need = {"code-start<write-stop": False, "write-start<code-stop": False}
+
+        def diff(lr):
+            (lt, lc), (rt, rc) = lr
+            d = dict(lt)
+            for k_, v_ in rt:
+                d[k_] = d.get(k_, 0) - v_
+            return dict((k_, v_) for k_, v_ in d.items() if v_), lc - rc
+
+        def field(term, name):
+            return term.endswith("." + name) or term.endswith("->" + name)
         for sn in cfg.node_containing(s):
             for did in cfg.dominators()[sn.id]:
                 dn = cfg.nodes[did]
                 if dn.kind != "test":
                     continue
-                e = cast.strip(dn.ast)
-                if e.get("kind") == "BinaryOperator" and e.get("opcode") in ("<", "<=", ">", ">="):
-                    l = cast.strip(e["inner"][0])
-                    r = cast.strip(e["inner"][1])
-                    ln = l.get("name") if l.get("kind") == "MemberExpr" else None
-                    rn = r.get("name") if r.get("kind") == "MemberExpr" else None
-                    tsucc = [x for (x, lab) in cfg.succ[did] if lab is True]
-                    on_true = bool(tsucc) and (tsucc[0] == sn.id or cfg.can_reach(tsucc[0], sn.id))
-                    if e["opcode"] in (">", ">="):
-                        ln, rn = rn, ln
-                    if on_true and (ln, rn) in need:
-                        need[(ln, rn)] = True
+                # which outcome of the test leads to the flag without coming back through the test (the loop makes everything reachable)
+                tsucc = [x for (x, lab) in cfg.succ[did] if lab is True]
+                fsucc = [x for (x, lab) in cfg.succ[did] if lab is False]
+                av = lambda x, did=did: x.id == did
+                on_true = bool(tsucc) and (tsucc[0] == sn.id or cfg.can_reach(tsucc[0], sn.id, avoid=av))
+                on_false = bool(fsucc) and (fsucc[0] == sn.id or cfg.can_reach(fsucc[0], sn.id, avoid=av))
+                for pol in ([True] if on_true and not on_false else []) + ([False] if on_false and not on_true else []):
+                    lr = cast.c_less_than(dn.ast, pol, ldefs)
+                    if lr is None:
+                        continue
+                    d, c0 = diff(lr)           # the test says  sum(d) + c0 < 0
+                    pos = [k_ for k_, v_ in d.items() if v_ == 1]
+                    neg = [k_ for k_, v_ in d.items() if v_ == -1]
+                    if len(d) == 2 and len(pos) == 1 and len(neg) == 1 and c0 == 0:
+                        if field(pos[0], "ad_start") and field(neg[0], "stop") and not field(neg[0], "ad_stop"):
+                            need["code-start<write-stop"] = True
+                        if field(pos[0], "start") and not field(pos[0], "ad_start") and field(neg[0], "ad_stop"):
+                            need["write-start<code-stop"] = True
         ok = all(need.values())
-        detail = "the flag is not guarded by both overlap comparisons code.start < write.stop and write.start < code.stop: %s" % need
+        detail = "the flag is not guarded by both overlap comparisons code.ad_start < write.stop and write.start < code.ad_stop (as strict tests on the half-open ranges): %s" % need
     ck.ob("R2", "check_invalid_code_blocs:overlap", ok, VMC, detail)
     # the loop must cover every recorded write: for (i=0; i<memory_w.num; i++)
     loops = [n for n in cast.walk(f.body) if n.get("kind") == "ForStmt"]
